@@ -1145,5 +1145,6 @@ func init() {
 			Corpus: []c13PCase{{Pattern: `(?:ab?)*c`}, {Pattern: `(?<n>a)*?(?(n)b|c){2,5}(?>x+)(?<=y)`, Opts: int(regexp2.RightToLeft)}},
 			N: c.N(4000, 200000), Gen: c13GenP, Check: c13CheckP, Batch: 1000,
 		})
+		vmLeg(c, c.N(500, 8000), vmSizes{k: 24, maxSteps: 4000, maxText: 12, extra: 2}) // leg W: interpreter model vs executeDefault (vm.go)
 	})
 }
